@@ -167,6 +167,8 @@ func (fr *Frame) applyContract(in ssa.Instruction, callee *ssa.Function, sp *Fun
 	sp.Used = true
 	if sp.Assumed {
 		e.assumedUsed[key] = true
+	} else if sp.Trusted {
+		e.assumedUsed["TRUSTED (repository function, contract not verified): "+key] = true
 	} else {
 		e.flag("contract-call:" + key)
 	}
@@ -431,7 +433,7 @@ func (fr *Frame) builtinAppend(in ssa.Instruction, args []Val, resT types.Type) 
 		mkIte(mkAnd(app("bvsle", s.sLen(), i), app("bvslt", i, newLen)), tAt(app("bvsub", i, s.sLen())), zeroLeaf(es))))
 	e.assume(fmt.Sprintf("(forall ((%s (_ BitVec 64))) (! %s :pattern ((select %s %s))))", i, body2, reArr, i))
 	newCap := e.fresh("appcap", sBV64)
-	e.assume(mkAnd(app("bvsle", newLen, newCap), app("bvsle", newCap, bvLitI(64, 1<<41))))
+	e.assume(mkAnd(app("bvsle", newLen, newCap), app("bvsle", newCap, bvLitI(64, 1<<42))))
 	nothing := mkEq(tLen, bvLitI(64, 0))
 	e.heapSet(fr.st, key, srt, mkIte(nothing, heap, mkIte(fits, sto(heap, s.sBase(), inArr), sto(heap, r, reArr))))
 	res := mkSlice(resT,
